@@ -9,6 +9,7 @@ import math
 
 from hypothesis import strategies as st
 
+from .gens import wide_ints
 from .core import Fail
 from .values import norm, render_int
 
@@ -276,7 +277,8 @@ def ints():
                          st.sampled_from([1, -1]))
     bits = st.one_of(st.integers(1, 16), st.integers(50, 70), st.integers(1, 200), st.integers(1, 4096))
     rnd = bits.flatmap(lambda k: st.integers(-(2 ** k), 2 ** k))
-    return st.one_of(boundary, rnd, st.integers(-40, 40))
+    # st.integers is concentrated on small magnitudes (gens.py): widths drawn uniformly as well
+    return st.one_of(boundary, rnd, st.integers(-40, 40), wide_ints(20, 130), wide_ints(1, 4096))
 
 
 forms = st.sampled_from(FORMS)
@@ -318,7 +320,7 @@ def worker(ctx):
     # exhaustive boundary x boundary grid for the operators with machine-word fast paths, with operands
     # produced both as (big-representation) arithmetic and through int("...") (normalised representation)
     vals = boundary_values()
-    grid_ops = ["//", "%", "%%", "/!", "*", "+", "-", "gcd", "<=>"] if ctx.thorough else ["//", "%%", "/!", "*", "-"]
+    grid_ops = BIN_ARITH + ["<=>", "<", "=="] if ctx.thorough else ["//", "%%", "/!", "*", "-", "gcd", "lcm", "%", "&"]
     jobs = [(a, op) for a in vals for op in grid_ops]
     for n, (a, op) in enumerate(jobs):
         if n % ctx.nworkers != ctx.index:
